@@ -1,6 +1,7 @@
 import Driver.Proto
 import Driver.Modelled
 import Model.Audit
+import Model.PolicyObj
 /-!
 # `vaktdrv`: one case per line in, one result per line out
 -/
@@ -33,6 +34,40 @@ def pStoreAns : P StoreAns
 def ansPolicies : StoreAns → List Policy
   | .items xs _ => xs
   | _ => []
+
+open Vakt.PolicyObj in
+def pAssign : P Assign
+  | name :: vid :: fv :: d :: ts => do
+    let v ← vid.toNat?
+    let f ← (if fv == "Q" then some FVal.scalar
+             else if fv.startsWith "K" then
+               (fv.drop 1).toString.toList.foldr (fun c acc => match acc, c with
+                 | some ks, 's' => some (EKind.str :: ks)
+                 | some ks, 'r' => some (EKind.rule :: ks)
+                 | some ks, 'o' => some (EKind.other :: ks)
+                 | _, _ => none) (some []) |>.map FVal.seq
+             else none)
+    let b ← (if d == "T" then some true else if d == "F" then some false else none)
+    pure ({ name := name, vid := v, fv := f, isDict := b }, ts)
+  | _ => none
+
+open Vakt.PolicyObj in
+def showPObj (o : PObj) : String :=
+  let vs := o.vals.toArray.qsort (fun a b => a.1 < b.1) |>.toList
+  toString o.typ ++ ";" ++ ",".intercalate (vs.map fun (n, v) => n ++ ":" ++ toString v)
+
+open Vakt.PolicyObj in
+def showErr : Err → String
+  | .creation => "creation"
+  | .typeError => "typeerror"
+
+open Vakt.PolicyObj in
+def runPObj (o : PObj) : List Assign → List String
+  | [] => []
+  | a :: rest =>
+    match setattr o a.name a.vid a.fv a.isDict with
+    | .ok o' => ("O " ++ showPObj o') :: runPObj o' rest
+    | .error e => ("E " ++ showErr e ++ " " ++ showPObj o) :: runPObj o rest
 
 def handle (toks : List String) : Option String :=
   match toks with
@@ -87,6 +122,12 @@ def handle (toks : List String) : Option String :=
       | "count" => some MsgCls.count | _ => none)
     if ps.any (fun p => (PyVal.pyStr p.uid).isNone || (PyVal.pyStr p.description).isNone) then pure "unmodelled"
     else pure ("ok " ++ showStr (renderMsg c ps))
+  | "POBJ" :: ts => do
+    let (ctor, ts) ← pCounted pAssign ts
+    let steps ← full (pCounted pAssign ts)
+    match Vakt.PolicyObj.construct ctor Vakt.PolicyObj.empty with
+    | .error e => pure ("ctor-raise " ++ showErr e)
+    | .ok o => pure (" | ".intercalate (("ok " ++ showPObj o) :: runPObj o steps))
   | "SCAN" :: ts => do
     let (s, ts) ← pChar ts
     let (t, ts) ← pChar ts
